@@ -270,4 +270,10 @@ def run(ctx: Ctx, repo: Repo, tier: str) -> None:
     ctx.attempt(_c16.rule_cli, ctx, repo)
     ctx.attempt(_c16.rule_identity, ctx, repo)
     ctx.attempt(_c16.rule_split, ctx, repo)
+    # "every stub annotation for an unannotated position is present in the result": libcst's ApplyTypeAnnotationsVisitor copies
+    # annotations of named parameters (params, keyword-only, positional-only) and of the return only - an annotation the stub
+    # carried for *args / **kwargs would be dropped silently; the tracer records named parameters only (R-C02.5)
+    ctx.trust("libcst's ApplyTypeAnnotationsVisitor._update_parameters copies annotations for params, kwonly_params and posonly_params, not for star_arg / star_kwarg")
+    from . import c02 as _c02
+    ctx.attempt(_c02.rule_arg_capture, ctx, repo)
     ctx.settle()
